@@ -70,6 +70,7 @@ class Bounds:
         self.funcs = {f.qualname: f for f in cm.dec.values()}
         self.funcs['marshal.unmarshal'] = ctx.prog.func('marshal.unmarshal')
         self._paths = {}
+        self.unbounded = {}
         for q, f in self.funcs.items():
             self._paths[q] = ret_paths(cm.paths(f, True))
         for _ in range(8):
@@ -87,6 +88,10 @@ class Bounds:
                             vals.append(0)
                         continue
                     b = self.bound(aff(size, p.state.falsy), p.cond)
+                    if b is None:
+                        # no lower bound (a SIGNED value read from the input
+                        # enters the size): reported by size_bounded()
+                        self.unbounded[(q, term_str(size)[:120])] = p
                     vals.append(b if b is not None else 0)
                 new[q] = min(vals) if vals else 0
             if new == self.lb:
@@ -571,6 +576,16 @@ def run(ctx):
     cm = CodecModel(prog)
     bounds = Bounds(ctx, cm)
     ctx.extra['decoder_size_lower_bounds'] = dict(bounds.lb)
+    # every reported size has a lower bound: the loops over elements only
+    # make progress if no decoder can report a NEGATIVE size
+    for q in sorted(bounds.funcs):
+        bad = [t for (qq, t) in bounds.unbounded if qq == q]
+        ctx.ob('C05.D1', q, 'size-bounded-below', not bad,
+               'the size this decoder reports has no lower bound: %s - a '
+               'value read SIGNED from the input (or subtracted) enters it, '
+               'so a hostile length makes the size negative, the position '
+               'of the enclosing array loop moves backwards and the loop '
+               'never ends' % (bad[:1] or ''), nontrivial=bool(bad))
     roots = [prog.func('message.parseMessage'),
              prog.func('marshal.unmarshal')]
     reach = CG.reachable(prog, roots, within=('marshal', 'message'))
